@@ -61,6 +61,9 @@ def check_conversions(ctx):
         out = I.call(cf, [symarr('nu', (N_,), unit=sym('unit:Hz')), symarr('X', (A_, N_), unit=au), Arr((), bu, unit=bu)], {'distance': scalar(d, sym('unit:Udist'))})
         inst = '%s -> %s' % (an, bn)
         if af == 'other' or bf == 'other':
+            if isinstance(out, Unk) and 'raises' not in out.why:
+                ctx.undecided('ALG-15', inst + ' refused', loc(cf), 'the call was not followed to its end: %s' % out.why)
+                continue
             ctx.expect(isinstance(out, Unk) and 'raises' in out.why, 'ALG-15', inst + ' refused', loc(cf), 'unsupported unit raises', 'unsupported unit accepted: %r' % (out,), 'refusal')
             continue
         if isinstance(out, Unk) and 'raises' in out.why:
